@@ -302,7 +302,15 @@ def lens_cells(ctx, col):
                 cands.append(("coincident", sphere(S("r2"))))
         what = f"cell d={dd}, r1={a}, r2={b} ({cands[0][0]})"
         try:
-            ev = CellEval(lambda env, w=w: Translator(env, make_inline(ctx, d), w))
+            def _own_volume(call, p1=p1, p2=p2):
+                # the operands are spheres (the class's constructor takes two VolSphere): their own volume is the sphere formula of their radius
+                f_ = dotted(call.func) or ""
+                if not call.args and not call.keywords and f_ in (f"{p1}.get_volume", f"{p1}._get_volume"):
+                    return sphere(S("r1"))
+                if not call.args and not call.keywords and f_ in (f"{p2}.get_volume", f"{p2}._get_volume"):
+                    return sphere(S("r2"))
+                return None
+            ev = CellEval(lambda env, w=w: Translator(env, make_inline(ctx, d, atoms=_own_volume), w))
             kind, val, node = ev.run(rest, dict(base))
         except ZeroDivisionError:
             col.bad("R-CELL", qual, d.loc(), what, "the branch taken divides by zero at this configuration "
